@@ -40,3 +40,13 @@ func VerifStartParams(h host.Host, keyPeers []peer.ID, oldThreshold int, oldSubs
 	_, err = r.unmarshallStartParams(b)
 	return err
 }
+
+// VerifValidCoordinators = the real ValidCoordinators of a resharing process whose host is h and whose
+// stored key share lists keyPeers as its committee (empty: a relayer that is only joining).
+func VerifValidCoordinators(h host.Host, keyPeers []peer.ID) []peer.ID {
+	r := &Resharing{
+		BaseTss: common.BaseTss{Host: h},
+		key:     keyshare.ECDSAKeyshare{Peers: append([]peer.ID(nil), keyPeers...)},
+	}
+	return r.ValidCoordinators()
+}
